@@ -5,7 +5,9 @@ parameter whose formulas (given as source strings) call lower cells, themselves 
 argument, or other cells at constant arguments, optionally through uncached helper cells; every
 formula first calls `tick`, a counting function bound as a model-level reference.  A configuration
 adds user-assigned input values on some elements.  A case is (program, inputs, non-empty target
-list, step size); step sizes run from 1 to (number of needed elements)+2.
+list, step size); step sizes run from 1 to (number of needed elements)+2.  A case may also start from a
+NON-EMPTY cache: `pre` lists elements evaluated directly before generate_actions, `mid` elements evaluated
+between generate_actions and execute_actions (the documented workflow changes the data in between).
 
 Correspondence (Lean model `MxModel.CalcSteps`, theorems in Props/C16.lean):
   * the action list `Model.generate_actions` returns, as exact per-step lists, against the Lean
@@ -16,7 +18,14 @@ Correspondence (Lean model `MxModel.CalcSteps`, theorems in Props/C16.lean):
     action and the formula-execution log, against the Lean abstract cache (`execute`);
   * a side stream of random action lists (not plans) through `execute_actions` against the same
     cache model, so that recursion and dependent-sweeping in the cache model are exercised too.
-Oracle (implementation only): the statement itself – see `oracle_*` below.
+Oracle (implementation only): the statement itself.  With values held beforehand it reads: after
+generate_actions every calculated value that is left was held before and is not needed by the targets; the
+calc steps are exactly the elements the targets depend on (computed on a fresh replica); after
+execute_actions the targets hold the direct values, value-pasted, and every other calculated value that is
+left was held before the execution and is not needed by the targets.  A failure in a case whose model held,
+before generate_actions, a calculated value that the targets depend on is the known finding
+C16-precomputed-values (elements that have a value are not entered while tracing, so they are neither planned
+nor cleared).
 """
 import json
 import os
@@ -25,6 +34,7 @@ from .. import core
 from ..impl import mx, close_all, quiet, err_kind
 
 MOD = 1000003
+PRE_KEY = "C16-precomputed-values"
 
 
 # ----------------------------------------------------------------------------- programs
@@ -237,8 +247,33 @@ def run_case(case, out, stats, model_jobs):
     needed = closure(preds, targets, inset)
     if any(t in failed for t in targets):
         return run_failing_case(case, out, stats, vals, preds, failed)
+    pre = [(n[0], n[1]) for n in case.get("pre", [])]
+    mid = [(n[0], n[1]) for n in case.get("mid", [])]
+    need = set(needed) | {t for t in targets if t not in inset}
     w = World(cells, inputs)
     try:
+        # ---------------- values held before generate_actions
+        for n in pre:
+            with quiet():
+                w.call(n)
+        pre_held = set(w.calculated())
+        pre_dep = bool(pre_held & need)       # the known finding's input class
+        w.log.clear()
+
+        def fail(what, only_known_if=True, **kw):
+            out.fail(what, hist, key=PRE_KEY if (pre_dep and only_known_if) else None, **kw)
+
+        def order_of(nodes):
+            """`nodes` (closed under `preds`) in an order in which direct evaluation would compute them"""
+            res, todo = [], sorted(nodes, key=repr)
+            while todo:
+                rest = [n for n in todo if any(p in todo and p != n for p in preds.get(n, []))]
+                res += [n for n in todo if n not in rest]
+                if len(rest) == len(todo):
+                    res += rest
+                    break
+                todo = rest
+            return res
         # ---------------- generate
         try:
             with quiet():
@@ -248,9 +283,10 @@ def run_case(case, out, stats, model_jobs):
                      hist)
             return
         left = w.calculated()
-        if left:
-            out.fail("generate_actions left calculated values behind", hist,
-                     detail={"left": sorted(node_name(n) for n in left)})
+        bad_left = sorted(node_name(n) for n in left if n not in pre_held or n in need)
+        if bad_left:
+            fail("generate_actions left calculated values behind", all(n in pre_held for n in left),
+                 detail={"left": bad_left})
         now = w.held()
         gen_execs = [n for n in w.log if cells[n[0]]["cached"]]
         if {n: v for n, (v, _) in now.items() if n in inset} != dict(inputs) or \
@@ -264,20 +300,28 @@ def run_case(case, out, stats, model_jobs):
         ordered = [n for a, ns in acts if a == "calc" for n in ns]
         # every needed element in exactly one calc step, after what it depends on
         if sorted(ordered, key=repr) != sorted(needed, key=repr):
-            out.fail("calc steps do not contain every needed element exactly once", hist,
-                     detail={"calc": [node_name(n) for n in ordered],
-                             "needed": sorted(node_name(n) for n in needed)})
+            fail("calc steps do not contain every needed element exactly once",
+                 len(set(ordered)) == len(ordered) and set(ordered) <= set(needed)
+                 and set(needed) - set(ordered) <= pre_held,
+                 detail={"calc": [node_name(n) for n in ordered],
+                         "needed": sorted(node_name(n) for n in needed)})
         pos = {n: k for k, n in enumerate(ordered)}
         for n in ordered:
             for p in preds.get(n, []):
                 if p in inset:
                     continue
                 if p not in pos or pos[p] >= pos[n]:
-                    out.fail("an element is scheduled before an element it depends on", hist,
-                             detail={"element": node_name(n), "dependency": node_name(p)})
+                    fail("an element is scheduled before an element it depends on",
+                         p not in pos and p in pre_held,
+                         detail={"element": node_name(n), "dependency": node_name(p)})
         for a, ns in acts:
             if a == "calc" and (len(ns) > size or not ns):
                 out.fail("a calc step is empty or larger than step_size", hist)
+        # ---------------- values computed between generate_actions and execute_actions
+        for n in mid:
+            with quiet():
+                w.call(n)
+        start_held = w.calculated()
         # ---------------- execute, one action at a time
         ids = Ids(ordered)
         w.log.clear()
@@ -286,7 +330,7 @@ def run_case(case, out, stats, model_jobs):
             for act in actions:
                 with quiet():
                     w.m.execute_actions([act])
-                h = {n: vi for n, vi in w.held().items() if n not in inset}
+                h = w.held()
                 trace.append(" ".join(str(i) for i in sorted(ids(n) for n in h)) + "/" +
                              " ".join(str(i) for i in sorted(ids(n) for n, vi in h.items() if vi[1])))
         except Exception as e:
@@ -295,18 +339,19 @@ def run_case(case, out, stats, model_jobs):
         held = w.held()
         for t in targets:
             if t not in held:
-                out.fail("a target holds no value after execute_actions", hist,
-                         detail={"target": node_name(t)})
+                fail("a target holds no value after execute_actions", t in pre_held,
+                     detail={"target": node_name(t)})
             elif held[t][0] != vals[t]:
                 out.fail("a target holds a value different from direct evaluation", hist,
                          detail={"target": node_name(t), "held": held[t][0], "direct": vals[t]})
             elif not held[t][1]:
-                out.fail("a target is not value-pasted (not marked as input) after execute_actions", hist,
-                         detail={"target": node_name(t)})
-        extra = sorted(node_name(n) for n in held if n not in inset and n not in targets)
+                fail("a target is not value-pasted (not marked as input) after execute_actions", t in pre_held,
+                     detail={"target": node_name(t)})
+        extra = [n for n in held if n not in inset and n not in targets
+                 and not (n in start_held and n not in need)]
         if extra:
-            out.fail("values other than the targets are left after execute_actions", hist,
-                     detail={"left": extra})
+            fail("values other than the targets are left after execute_actions",
+                 all(n in pre_held for n in extra), detail={"left": sorted(node_name(n) for n in extra)})
         if {n: v for n, (v, _) in held.items() if n in inset} != dict(inputs):
             out.fail("execute_actions changed user inputs", hist)
         execs = [n for n in w.log if cells[n[0]]["cached"]]
@@ -327,17 +372,23 @@ def run_case(case, out, stats, model_jobs):
         impl_acts = [(a, [ids(n) for n in ns]) for a, ns in acts]
         model_jobs.append((hist, "plan", plan_line,
                            acts_str(impl_acts, "") + " ; pasted= ; topo=1 ; nodup=1"))
-        pl = " ".join("%d:%s" % (ids(n), ",".join(str(ids(p)) for p in preds.get(n, []) if p in oset))
-                      for n in ordered)
-        exec_line = "exec %d ; %s ; %s" % (len(ordered) + 2, pl or "-", acts_str(impl_acts))
+
+        def preds_line(nodes):
+            allowed = set(nodes) | inset
+            return " ".join("%d:%s" % (ids(n), ",".join(str(ids(p)) for p in preds.get(n, []) if p in allowed))
+                            for n in nodes) or "-"
+        ins = " ".join(str(ids(n)) for n in sorted(inset, key=repr)) or "-"
+        xnodes = list(ordered) + [n for n in order_of(start_held) if n not in oset]
+        exec_line = "execfrom %d ; %s ; %s ; %s ; %s" % (
+            len(xnodes) + 2, preds_line(xnodes), ins,
+            " ".join(str(ids(n)) for n in order_of(start_held)) or "-", acts_str(impl_acts))
         model_jobs.append((hist, "exec", exec_line,
                            "|".join(trace) + " ; log=" + " ".join(str(ids(n)) for n in execs)))
-        allowed = oset | inset
-        gl = " ".join("%d:%s" % (ids(n), ",".join(str(ids(p)) for p in preds.get(n, []) if p in allowed))
-                      for n in ordered)
-        gen_line = "gen %d ; %s ; %s ; %s ; -" % (
-            len(ordered) + 2, gl or "-", " ".join(str(ids(n)) for n in sorted(inset, key=repr)) or "-",
-            " ".join(str(ids(t)) for t in targets) or "-")
+        gnodes = list(ordered) + [n for n in order_of(pre_held) if n not in oset]
+        gen_line = "gen %d ; %s ; %s ; %s ; %s" % (
+            len(gnodes) + 2, preds_line(gnodes), ins,
+            " ".join(str(ids(t)) for t in targets) or "-",
+            " ".join(str(ids(n)) for n in order_of(pre_held)) or "-")
         model_jobs.append((hist, "gen", gen_line,
                            "calculated=" + " ".join(str(ids(n)) for n in gen_execs) + " ; " +
                            " ".join(str(i) for i in sorted(ids(n) for n in now)) + "/" +
@@ -359,6 +410,12 @@ def run_case(case, out, stats, model_jobs):
             stats["reads_user_input"] += 1
         if any(not c["cached"] for c in cells):
             stats["with_uncached"] += 1
+        if pre_held:
+            stats["start_with_calculated_values"] = stats.get("start_with_calculated_values", 0) + 1
+            if pre_dep:
+                stats["start_with_needed_values"] = stats.get("start_with_needed_values", 0) + 1
+        if mid:
+            stats["values_between_generate_and_execute"] = stats.get("values_between_generate_and_execute", 0) + 1
     finally:
         w.close()
 
@@ -401,6 +458,8 @@ def run_random_actions(case, out, stats, model_jobs):
     acts = [(a, [(n[0], n[1]) for n in ns]) for a, ns in case["actions"]]
     nodes = closure(preds, [n for a, ns in acts for n in ns], inset)
     if any(n in failed for n in nodes):
+        # not run: the cache model has no failing formulas (counted, not silent)
+        stats["random_actions_skipped_failing"] = stats.get("random_actions_skipped_failing", 0) + 1
         return
     ids = Ids(sorted(nodes, key=repr))
     w = World(cells, inputs)
@@ -483,8 +542,13 @@ def new_stats():
             "random_lists_with_recomputation": 0}
 
 
-def case_of(cells, xmax, inputs, targets, size):
-    return {"cells": cells, "xmax": xmax, "inputs": inputs, "targets": [list(t) for t in targets], "size": size}
+def case_of(cells, xmax, inputs, targets, size, pre=(), mid=()):
+    c = {"cells": cells, "xmax": xmax, "inputs": inputs, "targets": [list(t) for t in targets], "size": size}
+    if pre:
+        c["pre"] = [list(n) for n in pre]
+    if mid:
+        c["mid"] = [list(n) for n in mid]
+    return c
 
 
 def corpus_cases():
@@ -524,6 +588,20 @@ def run(ctx, out):
             for size in sizes:
                 case = case_of(cells, xmax, inputs, ts, size)
                 run_case(case, out, stats, jobs)
+                # the same request on a model that is not empty: values held before generate_actions / computed
+                # between generate_actions and execute_actions (needed by the targets, or unrelated)
+                okn = [n for n in uni if n in preds and n not in inset and n not in failed]
+                if okn and size in (sizes[0], sizes[len(sizes) // 2]):
+                    below = [n for n in closure(preds, ts, inset) if n not in failed]
+                    pick = lambda: rng.sample(below if below and rng.random() < 0.6 else okn,
+                                              min(rng.randint(1, 2), len(below if below else okn)))
+                    r = rng.random()
+                    if r < 0.4:
+                        run_case(case_of(cells, xmax, inputs, ts, size, pre=pick()), out, stats, jobs)
+                    elif r < 0.8:
+                        run_case(case_of(cells, xmax, inputs, ts, size, mid=pick()), out, stats, jobs)
+                    else:
+                        run_case(case_of(cells, xmax, inputs, ts, size, pre=pick(), mid=pick()), out, stats, jobs)
                 if len(samples) < 3 and size == 2 and n_needed >= 4:
                     samples.append({"formulas": [render(i, c) for i, c in enumerate(cells)],
                                     "inputs": inputs, "targets": [node_name(t) for t in ts], "step_size": size})
@@ -566,15 +644,17 @@ def run(ctx, out):
         "corpus_cases": ncorpus,
         "input_distribution": {k: stats[k] for k in (
             "nested_targets", "reads_user_input", "with_uncached", "blocks", "needed", "targets", "malformed",
-            "random_action_lists", "random_lists_with_recomputation", "empty_target_lists") if k in stats},
+            "random_action_lists", "random_lists_with_recomputation", "empty_target_lists",
+            "start_with_calculated_values", "start_with_needed_values", "values_between_generate_and_execute",
+            "random_actions_skipped_failing") if k in stats},
     })
     out.assumptions.append(
         "the cache model (held set, input marks, trace edges, clear-with-dependents, paste detaches) behind "
         "run_correct is tied to modelx by the per-action correspondence only; values are not modelled – that the "
         "targets hold the directly evaluated values is checked by the implementation-only oracle")
     out.assumptions.append(
-        "runs start from a model without calculated values (user inputs allowed); step_size <= 0 is not "
-        "generated (get_calcsteps does not terminate for it)")
+        "runs also start from models that hold calculated values (before generate_actions and before "
+        "execute_actions); step_size <= 0 is not generated (get_calcsteps does not terminate for it)")
 
 
 def replay_case(c, out, stats, jobs):
